@@ -319,8 +319,9 @@ def run(prog, ctx):
     ctx.rule("R18.4", "exhaustive abstract evaluation: elements of every short operator string equal the vacuum expectation value from the CAR")
     ctx.rule("R18.2", "bra bases = per-site dagger of the same bases, same site order; dagger reverses and conjugates inside a state")
     ctx.rule("R18.3", "assembly: duals ket then bra, index maps doubled, fermionic; literal charge maps agree with the literal bases")
-    check_sort(prog, ctx)
     check_elements(prog, ctx, 4 if ctx.tier == "thorough" else 3)
+    # R18.1 is a path rule on the TEXT of the sort loop: it can only add confidence to R18.4, which compares every element with the CAR
+    ctx.confidence(check_sort, ("R18.4",), "R18.1")
     try:
         check_bra(prog, ctx)
     except AnalysisError as e:
